@@ -85,7 +85,9 @@ func c15Opts() bridge.GenOpts {
 	o.Holders = true
 	o.MinOps, o.MaxOps = 10, 50
 	o.Rotations = true
-	o.Weights = map[string]int{"sign": 6, "oprice": 4, "oholders": 3, "relay": 8, "deposit": 8, "transfer": 8}
+	o.BlockTimes = true
+	o.ParamSalt = true
+	o.Weights = map[string]int{"sign": 6, "oprice": 4, "oholders": 3, "relay": 8, "deposit": 8, "transfer": 8, "ss0": 4}
 	return o
 }
 
@@ -216,6 +218,7 @@ func TestC15(t *testing.T) {
 				if !open[f.Key] {
 					return f
 				}
+				rec.AlsoKnown = append(rec.AlsoKnown, f.Key)
 			}
 			// the restarted chain must be able to go on: one block with a claim through every orchestrator and a
 			// send by every user. (Its outcomes are not compared with the original: with every store prefix compared
